@@ -185,7 +185,7 @@ class WriteSite(FragmentTask):
             return
         cfg = SITES[self.key]
         v = out.value.get(cfg["var"])
-        ctx.oblige("post.fragment-defines-the-path", v is not None, "P")
+        ctx.structure("post.fragment-defines-the-path", v is not None)
         if v is None:
             return
         p = to_path(ex, v)
